@@ -569,6 +569,7 @@ class Interp:
             return
         # ---- generic iteration with placeholders
         carried_syms = {}
+        name_first_terms = {}
         mutated.sort(key=lambda o: o.id)
         for k_, o in enumerate(mutated):
             s = "carry:%d@%s" % (k_, sid)
@@ -589,6 +590,7 @@ class Interp:
                     # name rebound to a (possibly different) tensor each iteration
                     s = "carry:%s@%s" % (n, sid)
                     carried_syms[n] = s
+                    name_first_terms[n] = v.term
                     if v.obj.origin == "fresh":
                         v.obj.term = T.sym(s)
         # list items that are numbers and were changed
@@ -626,6 +628,12 @@ class Interp:
             if isinstance(v, VNum):
                 ft = num_term(af)
                 env[n] = VNum(v.kind, self._loop_result(sid, count, ft, v.term, s, it))
+            elif isinstance(v, VTens) and n in name_first_terms and v.obj.origin == "fresh" and v.obj not in carried_syms:
+                gen_t = v.term
+                if gen_t is not None and T.Sym(s) in gen_t.all_atoms():
+                    r = self.fresh(self._loop_result(sid, count, name_first_terms[n], gen_t, s, it), v.shape, v.kind, st)
+                    r.obj.valkind = v.obj.valkind
+                    env[n] = r
         if not gen_broke:
             self.exec_block(st.orelse)
 
